@@ -68,12 +68,17 @@ func OnErrorResumeNextWith[T any](finally ...Observable[T]) func(Observable[T]) 
 
 			var err error
 
+			// failed, not err != nil, tells how the last source ended: an error
+			// notification may carry a nil error
+			failed := false
+
 			for i := range sources {
 				if subscriptions.IsClosed() {
 					break
 				}
 
 				err = nil
+				failed = false
 
 				sub := sources[i].SubscribeWithContext(
 					subscriberCtx,
@@ -81,6 +86,7 @@ func OnErrorResumeNextWith[T any](finally ...Observable[T]) func(Observable[T]) 
 						destination.NextWithContext,
 						func(ctx context.Context, e error) {
 							err = e
+							failed = true
 							lastCtx = ctx
 						},
 						func(ctx context.Context) {
@@ -95,7 +101,7 @@ func OnErrorResumeNextWith[T any](finally ...Observable[T]) func(Observable[T]) 
 				sub.Wait()
 			}
 
-			if err != nil {
+			if failed {
 				destination.ErrorWithContext(lastCtx, err)
 			} else {
 				destination.CompleteWithContext(lastCtx)
